@@ -63,7 +63,14 @@ def run_sync(ctx, keys_for_pid):
 
 C19_KEYS = ("best-peer", "handler:", "sync-outcome", "hang:sync", "panic:sync", "sync:", "observe-after-sync")
 
+NET_KEYS = ("net:tip-mismatch", "net:ban-mismatch", "net:hang", "net:panic", "net:temp-blocks-left", "net:observe", "net:forged-block-rejected")
+
 def run(ctx):
+    from props import net as _net
+    _net.maybe_replay(ctx, LEVEL)
     cov = run_sync(ctx, lambda k: k.startswith(C19_KEYS))
+    # convergence in a network of honest real nodes: fork choice cascade + fast sync with the announcing peer (spec/Net.tla)
+    from props import net
+    cov.update(net.run_net(ctx, lambda k: k.startswith(NET_KEYS)))
     finish(ctx, LEVEL, cov, assumptions=["3 validators sign on both forks (the scenarios exercise the sync machinery, not BFT safety)",
                                          "toy application; loopback libp2p; fake peers serve re-signed blocks with a wrong state root or empty segments"])
